@@ -18,10 +18,17 @@ def main():
     atexit.register(core.cleanup)
     seed = int(os.environ.get("VERIF_SEED", "0") or 0)
     pid = a.prop.upper()
-    if replay:
-        rc = core.replay(pid, replay)
-    else:
-        rc = core.run_property(pid, a.tier, seed)
+    try:
+        if replay:
+            rc = core.replay(pid, replay)
+        else:
+            rc = core.run_property(pid, a.tier, seed)
+    except BaseException as e:  # a harness failure is never a verdict about sqlfluff: exit 2, no VIOLATION line
+        import traceback
+
+        print("BROKEN-HARNESS: %s: %s" % (type(e).__name__, e))
+        traceback.print_exc()
+        rc = 2
     sys.stdout.flush()
     core.cleanup()
     os._exit(rc)
